@@ -129,6 +129,19 @@ HISTORY = {
     "C16-r11-2": "round 11. first run: missed by C16 and C14; to_sympy is now called inside the option block before printing (this exposed to_sympy's own dependence on the display signs in the unchanged library, fixed in the repository; the seed's patch was rebased onto that fix)",
     "C09-r11-1": "round 11. first run: missed by C09 and C11; concatenate is now also called with axis=None (also with a single operand)",
     "C09-r11-2": "round 11. first run: missed by C09 and C11; full_like now gets shape= overrides, including the 0-d ()",
+    "C17-r11-1": "round 11. first run: missed; new workload save_negzero: polynomials holding -0.0 are written with both savetxt spellings and compared byte by byte",
+    "C17-r11-2": "round 11. first run: missed; new workload scalar_axis: thirteen reductions on 0-d polynomials with axis 0 / -1 / 1 / None in both spellings (the snapshot includes the shape)",
+    "C14-r12-1": "round 12 (hard mode, last round). first run: missed; global_options is now also used as a function decorator: recursion and mutual calls through one decorator object, normal and raising",
+    "C14-r12-2": "round 12. first run: missed; the unknown option names of bad_set / bad_enter now rotate through pieces and abbreviations of known names ('graded', 'sort', 'retain_coefficient', 'e', ...)",
+    "C05-r12-1": "round 12. first run: missed; new part run_sequences: the same operand objects are divided again after the divisor array / the dividend's storage was updated in place",
+    "C05-r12-2": "round 12. first run: missed; run_sequences also divides an array right after a scalar division that raised inside the reduction (and after a rejected keyword)",
+    "C15-r12-1": "round 12. first run: missed by C15 and C07; new whole program with float32 / int16 coefficients in which every term of one indeterminate cancels (dtypes compared across settings)",
+    "C01-r12-1": "round 12. needs retain_names=False: caught by C15; C01 runs under default options",
+    "C03-r12-1": "round 12. byte-swapped coefficients reach a C writer that silently ignores them: caught by C12 (poison + swapped operands) - the mechanism repeats C12-r9-1 / C01-r8-2 from another site",
+    "C03-r12-2": "round 12. first run: missed by C03, C14 and C12; C15 now checks after every operation that the global options are still what the block set (caught there: isfinite leaves retain_coefficients=False behind)",
+    "C04-r12-1": "round 12. first run: missed by C04 and C12; operands now also carry uint64 coefficients beyond 2**53",
+    "C04-r12-2": "round 12. first run: missed by C04 and C12; a second operand may now be a view of the first one (its transpose, or a reshape with a new axis)",
+    "C20-r12-2": "round 12. successive derivatives by position under retain_names=False: caught by C06 (option dimension)",
     "C06-2": "first run: caught by C06, missed by C15; C15's derivative entry now differentiates with respect to several variables",
 }
 REJECTED = [
